@@ -467,7 +467,7 @@ pub fn execute(plan: &Plan, ctx: &mut Ctx) {
                 let ok = match rd_cmd(&snaps[k].rd_c) {
                     Some((t, kd, b)) => {
                         let g = f32::from_bits(b) as f64;
-                        t == tstar && kd == kind && ((g - val).abs() <= 8.0 * (hops as f64 + 1.0) * 1.2e-7 * val.abs().max(g.abs()) + 1e-30 || !val.is_finite())
+                        t == tstar && kd == kind && ((g - val).abs() <= 8.0 * (hops as f64 + 1.0) * 1.2e-7 * val.abs().max(g.abs()) + 1e-44 || !val.is_finite())
                     }
                     None => false,
                 };
@@ -825,12 +825,15 @@ fn check_update(
                 }
                 Some((j, (tstar, kind, bits))) => {
                     let v = f32::from_bits(bits) as f64;
-                    // ties between different commands are outside the quantifier
+                    // ties between different commands are outside the quantifier. Relayed copies of one
+                    // command agree to a few ulp (5e-7); anything further apart at one stamp is a conflict
+                    // (e.g. a kinematic loop whose ratios do not multiply to 1), and the relay tolerance
+                    // (2e-6) leaves room for whichever agreeing copy the device picked.
                     let tie_conflict = creads.iter().enumerate().any(|(l, c)| match c {
                         Some((t, kd, b)) if *t == tstar && l != j => {
                             let f = relay_factor(spec, l, j).unwrap_or(1.0);
                             let w = f32::from_bits(*b) as f64 * f;
-                            *kd != kind || (w - v).abs() > 1e-5 * v.abs().max(w.abs()) + 1e-30
+                            *kd != kind || (w - v).abs() > 5e-7 * v.abs().max(w.abs()) + 1e-44
                         }
                         _ => false,
                     });
@@ -856,7 +859,7 @@ fn check_update(
                                         viol2(ctx, &["C03", "C13"], "relay_time", comp, format!("op {}: terminal {} (local {}) reads a command stamped {} but the newest readable one is stamped {}", i, k, l, gt, tstar));
                                     } else if gk != kind {
                                         viol2(ctx, &["C13"], "relay_kind", comp, format!("op {}: terminal {} (local {}) reads kind {} but the newest command has kind {}", i, k, l, gk, kind));
-                                    } else if want.is_finite() && (g - want).abs() > 8.0 * 1.2e-7 * want.abs().max(g.abs()) + 1e-30 {
+                                    } else if want.is_finite() && (g - want).abs() > 2e-6 * want.abs().max(g.abs()) + 1e-44 {
                                         viol2(ctx, &["C13"], "relay_value", comp, format!("op {}: terminal {} (local {}) reads {:e}; the newest command {:e} at local {} maps to {:e}", i, k, l, g, v, j, want));
                                     }
                                 }
